@@ -361,26 +361,49 @@ def object_walk_task(item):
     norb = int(4 * molecule.nHeavy[0] + molecule.nHydro[0])  # e_mo is padded on the first evaluation only
 
     def grab():
-        o = {"Etot": float(molecule.Etot[0]), "force": sp.to_np(molecule.force)[0], "e_mo": np.sort(sp.to_np(molecule.e_mo)[0][:norb])}
+        o = {"Etot": float(molecule.Etot[0]), "force": sp.to_np(molecule.force)[0], "e_mo": np.sort(sp.to_np(molecule.e_mo)[0][:norb]),
+             "q": sp.to_np(molecule.q)[0], "gap": float(molecule.e_gap[0]), "dipole": sp.to_np(molecule.dipole)[0]}  # fmt: skip
         if exc:
             o["cis"] = sp.to_np(molecule.cis_energies)[0]
+            for nm in ("oscillator_strength", "transition_dipole"):
+                v = getattr(molecule, nm, None)
+                if torch.is_tensor(v):
+                    o[nm] = sp.to_np(v)[0]
         return o
 
     o0 = grab()
+    # generators: a = C4(z), b = C3(111) (rotations about the origin), t = a translation
     gens = {"a": np.array([[0.0, -1, 0], [1, 0, 0], [0, 0, 1]]), "b": np.array([[0.0, 0, 1], [1, 0, 0], [0, 1, 0]])}
-    Rtot = np.eye(3)
-    worst = {"Etot": 0.0, "cis": 0.0, "force": 0.0, "e_mo": 0.0}
+    shift = np.array([0.37, -0.21, 0.53])
+    Rtot, Ttot = np.eye(3), np.zeros(3)
+    worst = {"Etot": 0.0, "cis": 0.0, "force": 0.0, "e_mo": 0.0, "q": 0.0, "gap": 0.0, "dipole": 0.0, "osc": 0.0, "tdipole": 0.0}
     where = {}
+    neutral = base["charge"] == 0
     for i, g in enumerate(word):
-        Rtot = gens[g] @ Rtot
+        if g == "t":
+            Ttot = Ttot + shift
+        else:
+            Rtot, Ttot = gens[g] @ Rtot, gens[g] @ Ttot
         with torch.no_grad():
-            molecule.coordinates.copy_(torch.as_tensor(base["coords"] @ Rtot.T).unsqueeze(0))
+            molecule.coordinates.copy_(torch.as_tensor(base["coords"] @ Rtot.T + Ttot).unsqueeze(0))
         es(molecule)
         o = grab()
         dev = {"Etot": abs(o["Etot"] - o0["Etot"]), "force": float(np.abs(o["force"] - o0["force"] @ Rtot.T).max()),
-               "e_mo": float(np.abs(o["e_mo"] - o0["e_mo"]).max())}  # fmt: skip
+               "e_mo": float(np.abs(o["e_mo"] - o0["e_mo"]).max()), "q": float(np.abs(o["q"] - o0["q"]).max()),
+               "gap": abs(o["gap"] - o0["gap"])}  # fmt: skip
+        if neutral:  # the dipole of an ion depends on the origin: only neutral molecules are compared
+            dev["dipole"] = float(np.abs(o["dipole"] - o0["dipole"] @ Rtot.T).max())
         if exc:
             dev["cis"] = float(np.abs(o["cis"] - o0["cis"]).max())
+            # state-specific vectors are defined only for states that are not degenerate with a neighbour
+            e = o0["cis"]
+            nd = [j for j in range(len(e)) if all(abs(e[j] - e[k]) > 1e-3 for k in range(len(e)) if k != j)]
+            if "oscillator_strength" in o and "oscillator_strength" in o0 and nd:
+                dev["osc"] = float(np.abs(o["oscillator_strength"][nd] - o0["oscillator_strength"][nd]).max())
+            if "transition_dipole" in o and "transition_dipole" in o0 and nd:
+                a_, b_ = o["transition_dipole"], o0["transition_dipole"] @ Rtot.T
+                # the overall sign of an eigenvector is not an observable
+                dev["tdipole"] = float(max(min(np.abs(a_[j] - b_[j]).max(), np.abs(a_[j] + b_[j]).max()) for j in nd))
         for k, v in dev.items():
             if v > worst[k]:
                 worst[k], where[k] = v, word[: i + 1]
@@ -388,7 +411,9 @@ def object_walk_task(item):
 
 
 def object_walks(chk, tier, seed):
-    words = ["b", "bb", "ab", "ba", "abab", "bbab"] if tier == "quick" else ["b", "bb", "ab", "ba", "abab", "bbab", "aab", "abb", "babab", "aaaa"]
+    words = ["b", "bb", "ab", "ba", "abab", "bbab", "t", "tb", "bt", "atbt"]
+    if tier != "quick":
+        words += ["aab", "abb", "babab", "aaaa", "tt", "tat", "btab", "abtb"]
     items = []
     for w in words:
         items.append(("H2CO", "AM1", "cis", 1, w, seed))
@@ -408,7 +433,7 @@ def object_walks(chk, tier, seed):
         chk.traces += 1
         chk.transitions += len(it[4])
         # measured on the healthy tree: Etot 3e-11, excitation energies 2e-9, orbital energies 1e-10, forces 4e-8
-        lim = {"Etot": 1e-8, "cis": 1e-7, "e_mo": 1e-7, "force": 1e-5}
+        lim = {"Etot": 1e-8, "cis": 1e-7, "e_mo": 1e-7, "force": 1e-5, "q": 1e-7, "gap": 1e-7, "dipole": 1e-6, "osc": 1e-6, "tdipole": 1e-5}
         for k, v in r["worst"].items():
             if v > lim[k]:
                 chk.violation(dict(d, kind="scalar" if k != "force" else "force", observable=k, err=float(v)),
@@ -554,7 +579,8 @@ def replay(payload):
     if isinstance(r, dict) and r.get("object_walk"):
         out = object_walk_task(tuple(r["object_walk"]))
         print(out)
-        return out["worst"]["Etot"] <= 1e-8 and out["worst"]["cis"] <= 1e-7 and out["worst"]["force"] <= 1e-5
+        lim = {"Etot": 1e-8, "cis": 1e-7, "e_mo": 1e-7, "force": 1e-5, "q": 1e-7, "gap": 1e-7, "dipole": 1e-6, "osc": 1e-6, "tdipole": 1e-5}
+        return all(v <= lim[k] for k, v in out["worst"].items())
     c, seed, label = r["config"], r["seed"], r["label"]
     mol, states, _ = build_states(c["mol"], seed)
     params = make_params(c)
